@@ -360,7 +360,7 @@ for _pid, _t in TEXTS.items():
 
 NOTES = ("Every check is `./check <id> quick|thorough`; it rebuilds the harness against /repo's working tree with -tags verif, "
          "runs rapid / enumeration jobs in parallel shards seeded from VERIF_SEED, writes evidence/<id>.json, prints "
-         "KNOWN-FINDING lines for entries of known_findings.jsonl that still reproduce, and exits 1 with a VIOLATION line otherwise. "
+         "KNOWN-FINDING lines for entries of known_findings.txt that still reproduce, and exits 1 with a VIOLATION line otherwise. "
          "Exit 2 = inconclusive (build failure / time-out).")
 
 _ALL = ["C%02d" % i for i in range(1, 21)]
